@@ -392,6 +392,9 @@ func snapCache(cacheDir string) (objs []CObj, stray []string) {
 }
 
 func artFrom(a *artifact.Artifact) Art {
+	if a == nil {
+		return Art{}
+	}
 	return Art{a.Checksum, a.Path, a.IsDir, a.DisableRecursion, a.SkipCache}
 }
 func artsFrom(m map[string]*artifact.Artifact) []Art {
